@@ -109,6 +109,8 @@ def register_core(reg):
         return out[0][1]
     unint("is_merge", 3)     # is_merge(r, b, c): r is the deep merge of map c into map b (defined by combine_trees' clauses)
     unint("inside", 2)       # inside(v, c): Config object c occurs inside value v (v itself, or an item at any nesting depth)
+    unint("tree_rel", 4)     # tree_rel(t, c, virtual, mask): t is the rendering of configuration c (defined by to_tree's clauses)
+    unint("basic_rel", 4)    # basic_rel(f, cfg, v, b): b is field f's on-disk form of value v (outcome of f.to_basic)
     unint("accepts", 2)      # accepts(field, stored_value): the field's declared constraints hold of the value
     unint("ok", 2)           # ok(field, input): validation accepts the input
     unint("norm_of", 3)      # norm_of(field, input, result): result is the field's normalised form of input
